@@ -1,0 +1,26 @@
+//go:build verif
+
+package state
+
+import "sync"
+
+// VerifC30NewTracker returns a Tracker created by NewTracker whose tracking
+// goroutine has been restarted on a condition variable that uses the provided
+// Locker, so that a verification harness can observe every critical section
+// of the tracker. The state index and the request registry are those set up
+// by NewTracker.
+func VerifC30NewTracker(l sync.Locker) *Tracker {
+	t := NewTracker()
+	t.Terminate()
+	t.change = sync.NewCond(l)
+	t.terminated = false
+	t.trackDone = make(chan struct{})
+	go t.track()
+	return t
+}
+
+// VerifC30Fields reads the tracker's guarded fields. The caller must hold the
+// tracker's lock.
+func VerifC30Fields(t *Tracker) (index uint64, terminated bool, requests int) {
+	return t.index, t.terminated, len(t.pollRequests)
+}
